@@ -31,7 +31,7 @@ def run(check, mirror, tier):
     src = mirror.read("model-evaluator/src/builders/decision_table.rs")
     f_edt = rsenum.struct_fields(src, "EvaluatedDecisionTable")
     f_rule = rsenum.struct_fields(src, "EvaluatedRule")
-    N = 3
+    N = 3 if tier == "quick" else 4
     check.bounds += ["evaluated tables with 0..%d rules (match flags symbolic), 1 or 2 output components, output values from an ordered alphabet of numbers, "
                      "declared output values: a symbolic list of 0..3 distinct numbers, 0 or 1 default output" % N]
     check.assumptions += ["output values are numbers compared by FeelNumber equality (rank model); evaluate_sum/min/max are uninterpreted (their folds are decimal arithmetic: C02)",
